@@ -32,13 +32,17 @@ func (fr *Frame) doCall(cc *ssa.CallCommon, fnv Value, args []Value, pc *Term, s
 	if f.Fn == nil {
 		ex.oblige("nil", "call "+exprAtPos(ex, pos), pos, pc, Neq(f.ID, RefNil()), "function value is not nil")
 		if ex.ctx.chanDisc(cc.Value) == "logged" {
-			// the call is recorded in the ghost event log "call": first pointer argument
+			// the call is recorded in the ghost event log "call" (first pointer
+			// argument) and counted in the per-field log "call.<Type>.<field>"
+			ref := RefNil()
 			for _, a := range args {
 				if p, ok := a.(PtrV); ok && p.Kind == PHeap {
-					ex.event(st, "call", p.Ref, pc)
+					ref = p.Ref
 					break
 				}
 			}
+			ex.event(st, "call", ref, pc)
+			ex.event(st, "call."+ex.ctx.fieldName(cc.Value), ref, pc)
 		}
 		if ex.ctx.isSink(cc.Value) {
 			for _, a := range args {
@@ -515,6 +519,20 @@ func (fr *Frame) selectInstr(x *ssa.Select, pc *Term, st *State) Value {
 	ex.assume(pc, And(BVSle(lo, idx), BVSlt(idx, BV(uint64(n), 64))))
 	res := []Value{IntV{idx}, BoolV{Fresh("select.ok", SBool)}}
 	cl := st.get("chclosed", SArr(SRef, SBool))
+	if x.Blocking && contains(ex.curProps, "C12") && fr.isRoot {
+		// shutdown discipline: a goroutine blocked in this select must be woken by
+		// Close, i.e. one arm receives from a close-only channel (quit / ctx.Done)
+		hasQuit := false
+		for _, s := range x.States {
+			if s.Dir == types.RecvOnly && (ex.ctx.chanDisc(s.Chan) == "closeonly" || isCtxDone(s.Chan)) {
+				hasQuit = true
+			}
+		}
+		saved := ex.clauseProps
+		ex.clauseProps = []string{"C12"}
+		ex.oblige("select-quit", exprAtPos(ex, x.Pos()), x.Pos(), pc, Bool(hasQuit), "every blocking select has an arm on a quit channel closed by Close")
+		ex.clauseProps = saved
+	}
 	var anyClosedRecv []*Term
 	for i, s := range x.States {
 		chv := fr.val(s.Chan)
@@ -768,4 +786,13 @@ func chanElem(t types.Type) types.Type {
 		return c.Elem()
 	}
 	return types.Typ[types.Invalid]
+}
+
+// isCtxDone: the channel is the result of a ctx.Done() call.
+func isCtxDone(v ssa.Value) bool {
+	c, ok := v.(*ssa.Call)
+	if !ok {
+		return false
+	}
+	return c.Call.IsInvoke() && c.Call.Method.Name() == "Done"
 }
